@@ -84,6 +84,22 @@ def run(tier, seed, scratch, limit):
             afters = afters[:: max(1, len(afters) // 6)]
         for n in afters:
             add(kind="kill", workload=w, kill_after=n)
+    # right after a checkpoint became visible (the rename onto <dir>/<step>): the first two and the last commit of
+    # EVERY workload also in the quick tier - whatever the code still has to write after a commit is missing here
+    if tier == "quick":
+        import re
+
+        for w in names:
+            commits = [e[0] for e in info[w]["events"] if e[2] in ("os.rename", "os.replace") and re.fullmatch(r"/\d+", str(e[3] or ""))]
+            have = {c.get("kill_after") for c in cases if c["workload"] == w}
+            have_at = {c.get("kill_at") for c in cases if c["workload"] == w}
+            for n in dict.fromkeys(commits[:2] + commits[-1:]):
+                if n not in have:
+                    add(kind="kill", workload=w, kill_after=n, after_commit=True)
+                # ... and on entry to the very next file-system event of ANY thread (the commit is done by a writer
+                # thread even in synchronous mode; what the solver thread writes next comes after it)
+                if n + 1 <= info[w]["n_events"] and n + 1 not in have_at:
+                    add(kind="kill", workload=w, kill_at=n + 1, after_commit=True)
     # the other workloads: a sample in the quick tier
     if tier == "quick":
         for w in names[2:]:
@@ -226,7 +242,7 @@ def run_case(case):
                 kinds[kk] = kinds.get(kk, 0) + 1
             t_done = [float(x.split(" ")[-1]) for x in open(logf).read().splitlines() if x.startswith("DONE")][0]
             return dict(status="ok", workload=case["workload"], n_events=len(L["ev"]), final=fin, traj=ref["trajectory"],
-                        events=[(e[0], e[1], e[2]) for e in L["ev"]], kinds=kinds, t_solve=L["t_solve"], t_done=t_done,
+                        events=[(e[0], e[1], e[2], e[4]) for e in L["ev"]], kinds=kinds, t_solve=L["t_solve"], t_done=t_done,
                         cls=["dry", case["workload"]], n_obs=len(L["save_calls"]))
         a1 = dict(args)
         for k in ("kill_at", "kill_after", "delay"):
